@@ -255,7 +255,7 @@ CONDITIONS = [
                                           for t in range(9) for n in ((0,) if t in (5, 6) else range(5)) for p in (0, 1, 3, 5) for ms in (2, 100) for m in _MD]},
          twins=["reach", "mutant:dfs_pop@t == 7 and n == 3 and p == 1 and ms == 100 and md >= 4", "mutant:count_plus2@t == 7 and n == 3 and p == 0 and ms == 100 and md >= 4",
                 "mutant:coll_cap_off_by_one@t == 2 and n == 3 and p == 0 and ms == 100 and md >= 4", "mutant:depth_off@t == 1 and n == 3 and p == 0 and ms == 100 and md == 3"],
-         timeout={"quick": 240, "thorough": 900},
+         timeout={"quick": 420, "thorough": 900},
          bounds="9 graph templates (flat, nested, wide list/tuple/set, dict of dicts, object with private attrs, shared, cyclic, big-first, mixed+exception) at one size "
                 "(thorough: sizes 0..4) x 2 declaration orders (thorough 4); max_variables, max_collection_size, max_var_depth UNBOUNDED symbolic ints (the solver "
                 "partitions them against the graph); max_string_length 100 (thorough also 2)"),
